@@ -5,10 +5,11 @@
 //!   idem   IN sym                      OUT canonical(sym)  canonical(canonical(sym))
 //!   renum  IN sym k (perm_j sym_j)*k   OUT canonical(sym)  canonical(sym_1) … canonical(sym_k)
 //!   pair   IN a b                      OUT canonical(a)  canonical(b)
+//!   seeds  IN sym                      OUT minimal-code  (code_d map_d) for every seed d
 use rust_dsymbols::covers::finite_universal_cover;
 use rust_dsymbols::delaney2d::is_spherical;
 use rust_dsymbols::derived::{canonical, cover};
-use rust_dsymbols::dsyms::{minimal_traversal_code, PartialDSym};
+use rust_dsymbols::dsyms::{minimal_traversal_code, PartialDSym, TraversalCode};
 use std::collections::BTreeMap;
 use verif_harness::dsgen::{all_vs, dsets, random_perm1, random_vs, Tab};
 use verif_harness::{enc_list, Ctx, Rng};
@@ -93,6 +94,22 @@ fn run_symbol(ctx: &mut Ctx, t: &Tab, perms: &[Vec<usize>], tag: &str) {
         let c2 = canonical(&c1);
         format!("{} {}", Tab::from_dsym(&c1).enc(), Tab::from_dsym(&c2).enc())
     });
+    if t.size <= 130 {
+        ctx.case("seeds", tag, || t.enc(), || {
+            let ds = t.to_partial_dsym();
+            let mut s = enc_list(&minimal_traversal_code(&ds).get_code());
+            for d in 1..=t.size {
+                let mut tc = TraversalCode::new(&ds, d);
+                let code = tc.get_code();
+                let map = tc.get_map();
+                s.push(' ');
+                s.push_str(&enc_list(&code));
+                s.push(' ');
+                s.push_str(&enc_list(&map));
+            }
+            s
+        });
+    }
     if !perms.is_empty() {
         ctx.case(
             "renum",
@@ -194,7 +211,7 @@ fn main() {
                     syms.extend(all_vs(t, &[1, 2, 3]));
                 } else {
                     syms.push(random_vs(t, &mut rng, &[1, 2, 3]));
-                    if th && thin == 1 {
+                    if thin == 1 {
                         syms.push(random_vs(t, &mut rng, &[1, 2, 3, 4, 6]));
                     }
                 }
